@@ -725,6 +725,10 @@ class Engine:
                 r2["args"] = [subst_ty(a, sub) for a in r2["args"]]
                 callee["resolved"] = r2
         args = [self.operand(st, fr, a) for a in t["args"]]
+        if callee is None and t.get("func") is not None:
+            fv = self.operand(st, fr, t["func"])
+            if fv[0] == "fn" and len(fv) > 2 and isinstance(fv[2], dict):
+                callee = fv[2]          # a function pointer whose value is a known fn item
         key = callee_key(callee)
         cid = next(st.ids)
         dest = self.place_loc(st, fr, t["dest"], "w")
@@ -1088,7 +1092,7 @@ def _m_identity(eng, st, callee, args, ev):
 
 def _m_into_iter(eng, st, callee, args, ev):
     a = args[0]
-    if a[0] == "agg" and a[1] == "adt" and a[2] and a[2].endswith(("::Range", "::RangeInclusive", "slice::iter::Iter", "array::iter::IntoIter")):
+    if a[0] == "agg" and a[1] == "adt" and a[2] and a[2].endswith(("::Range", "::RangeInclusive", "slice::iter::Iter", "array::iter::IntoIter", "enumerate::Enumerate")):
         return a        # an iterator is its own IntoIterator
     if a[0] == "agg" and a[1] == "array":
         # by-value array iterator: elements in index order
@@ -1545,11 +1549,168 @@ def _syn_try_for_each(eng, st, callee, args, ev):
     return sf
 
 
+# ---- Result / Option combinators as synthetic bodies (eager case split at the combinator) ------------------------------------------
+
+RES, OPT = "core::result::Result", "core::option::Option"
+# arm descriptions: what happens when the receiver has the given variant
+#   ("keep",)                      return the receiver unchanged
+#   ("wrap", adt, variant, idx, X) return Variant(X)
+#   ("val", X)                     return X
+#   ("none",)                      return Option::None
+# X is  ("pay", variant)  payload 0 of the receiver viewed as `variant`,  ("arg", k) the k-th argument (1-based local),
+#       ("call", k, [X...]) the result of calling the function/closure held in argument k on the given values
+COMBINATORS = {
+    ("R", "map"): {"Ok": ("wrap", RES, "Ok", 0, ("call", 2, [("pay", "Ok")])), "Err": ("keep",)},
+    ("R", "map_err"): {"Ok": ("keep",), "Err": ("wrap", RES, "Err", 1, ("call", 2, [("pay", "Err")]))},
+    ("R", "and_then"): {"Ok": ("val", ("call", 2, [("pay", "Ok")])), "Err": ("keep",)},
+    ("R", "or_else"): {"Ok": ("keep",), "Err": ("val", ("call", 2, [("pay", "Err")]))},
+    ("R", "or"): {"Ok": ("keep",), "Err": ("val", ("arg", 2))},
+    ("R", "and"): {"Ok": ("val", ("arg", 2)), "Err": ("keep",)},
+    ("R", "unwrap_or"): {"Ok": ("val", ("pay", "Ok")), "Err": ("val", ("arg", 2))},
+    ("R", "unwrap_or_else"): {"Ok": ("val", ("pay", "Ok")), "Err": ("val", ("call", 2, [("pay", "Err")]))},
+    ("R", "map_or"): {"Ok": ("val", ("call", 3, [("pay", "Ok")])), "Err": ("val", ("arg", 2))},
+    ("R", "map_or_else"): {"Ok": ("val", ("call", 3, [("pay", "Ok")])), "Err": ("val", ("call", 2, [("pay", "Err")]))},
+    ("R", "ok"): {"Ok": ("wrap", OPT, "Some", 1, ("pay", "Ok")), "Err": ("none",)},
+    ("R", "err"): {"Ok": ("none",), "Err": ("wrap", OPT, "Some", 1, ("pay", "Err"))},
+    ("O", "map"): {"Some": ("wrap", OPT, "Some", 1, ("call", 2, [("pay", "Some")])), "None": ("none",)},
+    ("O", "and_then"): {"Some": ("val", ("call", 2, [("pay", "Some")])), "None": ("none",)},
+    ("O", "or"): {"Some": ("keep",), "None": ("val", ("arg", 2))},
+    ("O", "or_else"): {"Some": ("keep",), "None": ("val", ("call", 2, []))},
+    ("O", "unwrap_or"): {"Some": ("val", ("pay", "Some")), "None": ("val", ("arg", 2))},
+    ("O", "unwrap_or_else"): {"Some": ("val", ("pay", "Some")), "None": ("val", ("call", 2, []))},
+    ("O", "map_or"): {"Some": ("val", ("call", 3, [("pay", "Some")])), "None": ("val", ("arg", 2))},
+    ("O", "map_or_else"): {"Some": ("val", ("call", 3, [("pay", "Some")])), "None": ("val", ("call", 2, []))},
+    ("O", "ok_or"): {"Some": ("wrap", RES, "Ok", 0, ("pay", "Some")), "None": ("wrap", RES, "Err", 1, ("arg", 2))},
+    ("O", "ok_or_else"): {"Some": ("wrap", RES, "Ok", 0, ("pay", "Some")), "None": ("wrap", RES, "Err", 1, ("call", 2, []))},
+}
+VIDX = {"Ok": 0, "Err": 1, "None": 0, "Some": 1}
+
+
+def _callable(eng, t):
+    """('closure', body fn) | ('fn', dict) | ('ctor', dict) | None for a function-valued term"""
+    if not isinstance(t, tuple) or not t:
+        return None
+    if t[0] == "fn" and len(t) > 2 and isinstance(t[2], dict):
+        return ("ctor", t[2]) if (t[2].get("dk") or "").startswith("Ctor") else ("fn", t[2])
+    cf = _closure_fn(eng, t)
+    if cf is not None:
+        return ("closure", cf)
+    return None
+
+
+def _syn_combinator(fam, name):
+    arms = COMBINATORS[(fam, name)]
+    variants = ("Ok", "Err") if fam == "R" else ("Some", "None")
+
+    def build(eng, st, callee, args, ev):
+        nargs = len(args)
+        # every function-valued argument that an arm calls must be known
+        calls = {}
+        for spec in arms.values():
+            for x in _walk_x(spec):
+                if x[0] == "call":
+                    c = _callable(eng, args[x[1] - 1]) if x[1] - 1 < nargs else None
+                    if c is None:
+                        return None
+                    calls[x[1]] = c
+        nloc = [nargs + 1]
+
+        def fresh():
+            nloc[0] += 1
+            return nloc[0] - 1
+        blocks = [None]
+        d = fresh()
+
+        def operand(x, stmts, blocks_out):
+            """-> operand for X; may append a call block; returns (operand, entry-continuation handled by caller)"""
+            if x[0] == "pay":
+                return _mv(1, [{"k": "downcast", "name": x[1]}, {"k": "field", "name": "0"}])
+            if x[0] == "arg":
+                return _mv(x[1])
+            raise ValueError(x)
+
+        def arm_blocks(spec):
+            """append blocks computing _0 for this arm; return index of the arm's first block"""
+            first = len(blocks)
+            kind = spec[0]
+            if kind == "keep":
+                blocks.append(_bb([_assign(0, {"k": "use", "op": _mv(1)})], {"k": "return"}))
+                return first
+            if kind == "none":
+                blocks.append(_bb([_assign(0, {"k": "agg", "ak": "adt", "adt": OPT, "variant": "None", "fields": [], "vidx": 0, "ops": []})], {"k": "return"}))
+                return first
+            x = spec[-1]
+            wrap = (spec[1], spec[2], spec[3]) if kind == "wrap" else None
+
+            def finish(op):
+                if wrap:
+                    return _assign(0, _variant(wrap[0], wrap[1], wrap[2], [op]))
+                return _assign(0, {"k": "use", "op": op})
+            if x[0] != "call":
+                blocks.append(_bb([finish(operand(x, None, None))], {"k": "return"}))
+                return first
+            k = x[1]
+            ck, cobj = calls[k]
+            argops = [operand(a, None, None) for a in x[2]]
+            res = fresh()
+            if ck == "ctor":
+                nm = cobj.get("name")
+                known = {"Some": (OPT, 1), "Ok": (RES, 0), "Err": (RES, 1)}
+                if nm in known and cobj.get("krate") == "core":
+                    rv = _variant(known[nm][0], nm, known[nm][1], argops)
+                else:
+                    parent = (cobj.get("canon") or "").rsplit("::{constructor", 1)[0]
+                    rv = _variant(parent.split("::", 1)[-1] if "::" in parent else parent, nm, 0, argops)
+                blocks.append(_bb([_assign(res, rv), finish(_mv(res))], {"k": "return"}))
+                return first
+            stmts = []
+            blocks.append(None)
+            nxt = len(blocks)
+            if ck == "closure":
+                envref = fresh()
+                term = _closure_call(cobj, k, envref, argops, res, nxt, stmts)
+            else:
+                cal = dict(cobj)
+                cal["syn_inline"] = True
+                term = {"k": "call", "callee": cal, "args": argops, "dest": _P(res), "target": nxt, "unwind": None, "line": None, "exp": True}
+            blocks[first] = _bb(stmts, term)
+            blocks.append(_bb([finish(_mv(res))], {"k": "return"}))
+            return first
+        a0 = arm_blocks(arms[variants[0]])
+        a1 = arm_blocks(arms[variants[1]])
+        unreachable = len(blocks)
+        blocks.append(_bb([], {"k": "unreachable"}))
+        blocks[0] = _bb([_assign(d, {"k": "discr", "p": _P(1)})],
+                        {"k": "switch", "discr": _mv(d), "targets": [[VIDX[variants[0]], a0], [VIDX[variants[1]], a1]], "otherwise": unreachable, "dty": "isize"})
+        return SynFn(name, nargs, nloc[0] + 1, blocks, st.frames[-1]["fn"])
+    return build
+
+
+def _walk_x(spec):
+    for el in spec:
+        if isinstance(el, tuple):
+            yield el
+            if el and el[0] == "call":
+                for a in el[2]:
+                    yield a
+
+
+def _m_checked_sub(eng, st, callee, args, ev):
+    ty = callee.get("impl_self")
+    if ty not in ("u8", "u16", "u32", "u64", "u128", "usize"):
+        return NotImplemented
+    return mk_optif(mk_bin("Ge", args[0], args[1], ty), mk_bin("Sub", args[0], args[1], ty))
+
+
+def _m_checked_add(eng, st, callee, args, ev):
+    return NotImplemented
+
+
 SYN_MODELS = {
-    "std::result::Result::<T, E>::map": _syn_result_map,
-    "std::option::Option::<T>::map": _syn_option_map,
     "core::iter::traits::iterator::Iterator::try_for_each": _syn_try_for_each,
 }
+for (_fam, _nm) in COMBINATORS:
+    SYN_MODELS[("std::result::Result::<T, E>::" if _fam == "R" else "std::option::Option::<T>::") + _nm] = _syn_combinator(_fam, _nm)
 
 
 # ---- opt-in models of slice / option plumbing (used by the semantic summaries) ------------------------------------------------
@@ -1764,6 +1925,7 @@ def _m_slice_iter(eng, st, callee, args, ev):
     if callee["name"] == "into_iter":
         sty = callee.get("self_ty") or ""
         sty2 = re.sub(r"^&('\w+ )?", "&", sty)
+        sty2 = sty2.replace("&mut ", "&")
         if not (sty2.startswith("&[") or re.match(r"^&(std::boxed::|alloc::boxed::)?Box<\[", sty2) or re.match(r"^&(std::vec::|alloc::vec::)?Vec<", sty2)):
             return _m_into_iter(eng, st, callee, args, ev)
     while a[0] == "ref" and a[1][0] == "P":
@@ -1775,6 +1937,17 @@ def _m_iter_next(eng, st, callee, args, ev):
     r = args[0]
     if r[0] == "ref":
         v = eng.read(st, r[1])
+        if v[0] == "agg" and v[1] == "adt" and v[2] == "core::iter::adapters::enumerate::Enumerate":
+            cnt, it = v[5][0], v[5][1]
+            pos, x = it[5][0], it[5][1]
+            sp = slice_parts(eng, st, x)
+            if sp is not None:
+                b0, lo0, hi0 = sp
+                ln = mk_bin("Sub", hi0, lo0, "usize")
+                it2 = it[:5] + ((mk_bin("Add", pos, C(1, "usize"), "usize"), x),) + it[6:]
+                eng.write(st, r[1], v[:5] + ((mk_bin("Add", cnt, C(1, "usize"), "usize"), it2),) + v[6:])
+                elem = ("ref", ("I", b0, mk_bin("Add", lo0, pos, "usize")))
+                return mk_optif(mk_bin("Lt", pos, ln, "usize"), ("agg", "tuple", None, None, ("0", "1"), (cnt, elem)))
         if v[0] == "agg" and v[1] == "adt" and v[2] == "core::slice::iter::Iter":
             pos, x = v[5][0], v[5][1]
             sp = slice_parts(eng, st, x)
@@ -1784,6 +1957,23 @@ def _m_iter_next(eng, st, callee, args, ev):
                 eng.write(st, r[1], v[:5] + ((mk_bin("Add", pos, C(1, "usize"), "usize"), x),) + v[6:])
                 return mk_optif(mk_bin("Lt", pos, ln, "usize"), ("ref", ("I", b0, mk_bin("Add", lo0, pos, "usize"))))
     return _m_range_next(eng, st, callee, args, ev)
+
+
+def _m_ptr_range(eng, st, callee, args, ev):
+    sp = slice_parts(eng, st, args[0], callee.get("self_ty"))
+    if sp is None or sp[0][0] != "P":
+        return NotImplemented
+    b0, lo0, hi0 = sp
+    key = "core::slice::<impl [T]>::" + ("as_mut_ptr" if "mut" in callee["name"] else "as_ptr")
+    base = ("call", ev["id"], key, (b0[1],), "*const u8")
+    return ("agg", "adt", "core::ops::range::Range", "Range", ("start", "end"), (mk_bin("Add", base, lo0, "usize"), mk_bin("Add", base, hi0, "usize")), 0)
+
+
+def _m_enumerate(eng, st, callee, args, ev):
+    it = args[0]
+    if it[0] == "agg" and it[1] == "adt" and it[2] == "core::slice::iter::Iter":
+        return ("agg", "adt", "core::iter::adapters::enumerate::Enumerate", "Enumerate", ("count", "iter"), (C(0, "usize"), it), 0)
+    return NotImplemented
 
 
 def _m_as_ptr(eng, st, callee, args, ev):
@@ -1800,6 +1990,10 @@ def _m_as_ptr(eng, st, callee, args, ev):
 
 SLICE_MODELS = {
     "core::slice::<impl [T]>::iter": _m_slice_iter,
+    "core::slice::<impl [T]>::iter_mut": _m_slice_iter,
+    "core::slice::<impl [T]>::as_ptr_range": _m_ptr_range,
+    "core::slice::<impl [T]>::as_mut_ptr_range": _m_ptr_range,
+    "core::iter::traits::iterator::Iterator::enumerate": _m_enumerate,
     "core::iter::traits::collect::IntoIterator::into_iter": _m_slice_iter,
     "core::iter::traits::iterator::Iterator::next": _m_iter_next,
     "core::slice::<impl [T]>::as_ptr": _m_as_ptr,
@@ -1830,13 +2024,10 @@ MODELS = {
     "core::ops::range::RangeInclusive::<Idx>::new": _m_range_incl_new,
     "core::convert::From::from": _m_from_bool,
     "core::ops::try_trait::FromResidual::from_residual": _m_from_residual,
-    "std::result::Result::<T, E>::map_err": _m_map_err,
-    "std::result::Result::<T, E>::map": _m_result_map,
     "std::option::Option::<T>::is_some": _m_is_some,
     "std::option::Option::<T>::is_none": _m_is_none,
     "std::result::Result::<T, E>::is_ok": _m_is_ok,
     "std::result::Result::<T, E>::is_err": _m_is_err,
-    "std::option::Option::<T>::ok_or": _m_ok_or,
     "core::ops::index::Index::index": _m_index,
     "core::ops::index::IndexMut::index_mut": _m_index,
     "core::slice::<impl [T]>::len": _m_len,
@@ -1852,6 +2043,8 @@ for _t in ("f32", "f64"):
     MODELS["core::%s::<impl %s>::to_be_bytes" % (_t, _t)] = _m_float_to_be_bytes
     MODELS["core::%s::<impl %s>::from_le_bytes" % (_t, _t)] = _m_float_from_le_bytes
     MODELS["core::%s::<impl %s>::from_be_bytes" % (_t, _t)] = _m_float_from_be_bytes
+for _t in ("u8", "u16", "u32", "u64", "u128", "usize"):
+    MODELS["core::num::<impl %s>::checked_sub" % _t] = _m_checked_sub
 for _t in ("u8", "i8", "u16", "i16", "u32", "i32", "u64", "i64", "u128", "i128", "usize", "isize"):
     MODELS["core::num::<impl %s>::to_le_bytes" % _t] = _m_to_le_bytes
     MODELS["core::num::<impl %s>::to_be_bytes" % _t] = _m_to_be_bytes
